@@ -10,7 +10,7 @@ CASE_TYPE = "ecase"
 CHECK_FN = 'check_cases "C20"'
 MISMATCH_IS_VIOLATION = False
 RULE = ec.ENG_RULE + "non-trivial = the main answer is non-empty; distinct = distinct (database, query, options)"
-TRUSTED = ["oracles fed to the model from the real code for each case: bm25IDF values (math.Log), the NLP analysis of the query and per-document NLP "
+TRUSTED = ["oracles fed to the model from the real code for each case: bm25IDF values (math.Log), the cleaned lower-cased words of the query (the analysis itself is computed by Model/Nlp.v from them and compared) and per-document NLP "
            "multipliers, the TF-IDF tokenizer output and math.Log table (the ranking itself is computed by Model/Tfidf.v and compared), raw sahilm/fuzzy scores", "correspondence harness", "PrimFloat = Go float64 on amd64 (no FMA fusion)"]
 ASSUMPTIONS = ["platform tags are ASCII (EqualFold modelled by ASCII folding)"]
 coq_case = ec.cecase
@@ -47,5 +47,5 @@ FAMILIES = {"ws": dict(
 
 
 LEVEL_TEXT = 'Theorems (Props/C20.v): the tokenizer ignores ASCII letter case; two queries with the same lower-casing get the same answer from the index/NLP pipeline; the whitespace normal form of the CLI (the norm function of the validator) ignores leading, trailing and repeated whitespace. Tied by the engine correspondence, where every case is also run with a randomly re-cased query and must give the bit-identical answer (all paths incl. typo fallback and NLP; queries built from the phrases the current NLP source tests for), and by 400 query / re-spelling pairs (other case, other Unicode whitespace runs) through ValidateQuery, which must hand the engine the same text up to letter case.'
-LEVEL_NOTE = 'Partial: the NLP analysis, the TF-IDF tokenizer (Unicode classes) and the fuzzy matcher are oracles computed from the query by un-modelled code; their case-invariance is compared per case, not proved. CLI whitespace normal form: C14. Trusted: Coq kernel; harness.'
+LEVEL_NOTE = 'Partial: Unicode lower-casing and regexp cleaning of the query (the inputs of the NLP model), the TF-IDF tokenizer (Unicode classes) and, for non-ASCII or very long patterns, the fuzzy matcher are oracles computed from the query by un-modelled code; their case-invariance is compared per case, not proved. CLI whitespace normal form: C14. Trusted: Coq kernel; harness.'
 TECHNIQUE = "Coq proof over the engine model + differential correspondence (vm_compute, bit-exact scores)"
